@@ -79,6 +79,10 @@ pub enum HAct {
     /// decoder v2: the first time it runs, the handler creates an observer on this node and
     /// keeps it in the observer table (it must read NeverStabilised until the next stabilise)
     ObserveNew(Tag),
+    /// decoder v2: the handler unsubscribes itself the first time it runs (true: through the state)
+    UnsubscribeSelf(bool),
+    /// decoder v2: the first time it runs, the handler subscribes one more (plain) handler on its own observer
+    SubscribeMore,
 }
 pub struct SubM {
     pub id: u32,
@@ -90,6 +94,8 @@ pub struct SubM {
     pub dead: bool,
     pub active: bool,
     pub acts: Vec<HAct>,
+    /// where a handler-made subscription's token arrives
+    pub token_cell: Option<Rc<std::cell::Cell<Option<SubscriptionToken>>>>,
 }
 
 #[derive(Default, Clone, Debug)]
@@ -135,6 +141,8 @@ pub struct Classes {
     pub siblings_cut_short: u32,
     pub swarmed: bool,
     pub observers_created_in_handlers: u32,
+    pub subscriptions_made_in_handlers: u32,
+    pub unsubscribed_in_handlers: u32,
 }
 
 #[derive(Clone, Debug)]
@@ -519,16 +527,20 @@ impl<'p> Harness<'p> {
     /// decoder v2: a node-level handler (Incr::on_update). It perturbs the handler bookkeeping that
     /// subscriptions share (handler counts, the handle-after-stabilisation queue); its own calls
     /// are logged, and may be the target of an injected fault, but carry no expectation.
-    pub fn act_on_update(&mut self, ni: usize) {
+    pub fn act_on_update(&mut self, ni: usize, again: bool) {
         if self.ended {
             return;
         }
         let Some(incr) = self.nodes[ni].incr.clone() else { return };
         let tag = self.nodes[ni].tag;
         let hid = self.node_handlers;
-        self.node_handlers += 1;
+        self.node_handlers += 2;
         let can = build::canary();
-        self.trace.push(format!("#{tag}.on_update(h{hid})"));
+        let can2 = build::canary();
+        self.trace.push(format!("#{tag}.on_update(h{hid}{})", if again { format!(", which registers h{} on the same node the first time it runs", hid + 1) } else { String::new() }));
+        // (a weak reference: a handler that owned its node would keep it alive for ever)
+        let weak = incr.weak();
+        let first = std::cell::Cell::new(true);
         let r = guarded(|| {
             incr.on_update(move |u: incremental::NodeUpdate<&Val>| {
                 let _c = &can;
@@ -540,6 +552,22 @@ impl<'p> Harness<'p> {
                 };
                 log(Event::NodeNotify { tag, handler: hid, kind, value });
                 tick(Role::Handler);
+                if again && first.replace(false) {
+                    if let Some(n) = weak.upgrade() {
+                        let can3 = can2.clone();
+                        n.on_update(move |u: incremental::NodeUpdate<&Val>| {
+                            let _c = &can3;
+                            let kind = match u {
+                                incremental::NodeUpdate::Necessary(_) => 0,
+                                incremental::NodeUpdate::Changed(_) => 1,
+                                incremental::NodeUpdate::Invalidated => 2,
+                                incremental::NodeUpdate::Unnecessary => 3,
+                            };
+                            log(Event::NodeNotify { tag, handler: hid + 1, kind, value: None });
+                            tick(Role::Handler);
+                        });
+                    }
+                }
             })
         });
         if let Err(m) = r {
@@ -631,6 +659,13 @@ impl<'p> Harness<'p> {
             });
         }
         let observed_once = std::cell::Cell::new(false);
+        let own_token: Rc<std::cell::Cell<Option<SubscriptionToken>>> = Rc::new(std::cell::Cell::new(None));
+        let own_token2 = own_token.clone();
+        let child_token: Rc<std::cell::Cell<Option<SubscriptionToken>>> = Rc::new(std::cell::Cell::new(None));
+        let child_token2 = child_token.clone();
+        let (unsub_done, subscribed_more) = (std::cell::Cell::new(false), std::cell::Cell::new(false));
+        let has_child = acts.iter().any(|a| matches!(a, HAct::SubscribeMore));
+        let can_child = build::canary();
         let acts2 = acts.clone();
         let tbl = Rc::downgrade(&self.obs_tbl);
         let can = build::canary();
@@ -663,6 +698,48 @@ impl<'p> Harness<'p> {
                             }
                         }
                     }
+                }
+            }
+            for a in acts2.iter() {
+                match (a, &me) {
+                    (HAct::UnsubscribeSelf(via_state), Some(o)) => {
+                        if let (Some(tok), false) = (own_token2.get(), unsub_done.replace(true)) {
+                            if *via_state {
+                                o.state().unsubscribe(tok);
+                            } else {
+                                let _ = o.unsubscribe(tok);
+                            }
+                            log(Event::HandlerUnsubscribed { sub: sid });
+                        }
+                    }
+                    (HAct::SubscribeMore, Some(o)) => {
+                        if !subscribed_more.replace(true) {
+                            let child = sid + 1;
+                            let tbl2 = tbl.clone();
+                            let can2 = can_child.clone();
+                            let h = move |u: Update<&Val>| {
+                                let _c = &can2;
+                                let upd = match u {
+                                    Update::Initialised(v) => Upd::Init(v.clone()),
+                                    Update::Changed(v) => Upd::Changed(v.clone()),
+                                    Update::Invalidated => Upd::Invalidated,
+                                };
+                                let me: Option<Observer<Val>> = tbl2.upgrade().and_then(|t| t.try_borrow().ok().and_then(|t| t[oid as usize].clones.iter().flatten().next().cloned()));
+                                let self_read = match &me {
+                                    Some(o) => read_obs(o),
+                                    None => Err("<no handle>".to_string()),
+                                };
+                                let reads = build::read_all_observers();
+                                log(Event::Notify { sub: child, upd, self_read, reads });
+                                tick(Role::Handler);
+                            };
+                            if let Ok(tok) = o.try_subscribe(h) {
+                                child_token2.set(Some(tok));
+                                log(Event::HandlerSubscribed { sub: child });
+                            }
+                        }
+                    }
+                    _ => {}
                 }
             }
             for (a, vc) in acts2.iter().zip(var_clones.iter()) {
@@ -716,6 +793,9 @@ impl<'p> Harness<'p> {
         self.obs[oi].n_subs += 1;
         let t = self.obs[oi].node;
         self.sub_changed_since_stab.insert(t);
+        if let Ok(t) = &res {
+            own_token.set(Some(*t));
+        }
         self.subs.push(SubM {
             id: sid,
             obs: oi as u32,
@@ -725,7 +805,12 @@ impl<'p> Harness<'p> {
             dead: false,
             active: usable,
             acts,
+            token_cell: None,
         });
+        if has_child {
+            // placeholder for the subscription the handler will make: id = sid + 1
+            self.subs.push(SubM { id: sid + 1, obs: oi as u32, token: None, eligible_from: Round::MAX, initialised: false, dead: false, active: false, acts: vec![], token_cell: Some(child_token) });
+        }
     }
 
     pub fn act_unsubscribe(&mut self, si: usize, via: usize) {
@@ -891,6 +976,23 @@ impl<'p> Harness<'p> {
                 s => s,
             };
         }
+        // subscriptions made by handlers during this stabilise take part from the next one on
+        for e in &events {
+            if let Event::HandlerSubscribed { sub } = e {
+                let i = *sub as usize;
+                if let Some(cell) = self.subs[i].token_cell.clone() {
+                    self.subs[i].token = cell.get();
+                    self.subs[i].active = true;
+                    self.subs[i].eligible_from = r + 1;
+                    let oi = self.subs[i].obs as usize;
+                    self.obs[oi].n_subs += 1;
+                    let t = self.obs[oi].node;
+                    self.sub_changed_since_stab.insert(t);
+                    self.classes.subscriptions_made_in_handlers += 1;
+                    self.trace.push(format!("      (handler subscribed s{sub} on o{oi})"));
+                }
+            }
+        }
         // observers created by handlers during this stabilise: not linked yet
         for e in &events {
             if let Event::HandlerObserved { obs, node } = e {
@@ -918,6 +1020,19 @@ impl<'p> Harness<'p> {
             if o.disallowed_in_handler && o.state == OState::InUse {
                 o.state = OState::Disallowed;
                 o.disallowed_in_handler = false;
+            }
+        }
+        // a handler that unsubscribed itself hears nothing from now on
+        for e in &events {
+            if let Event::HandlerUnsubscribed { sub } = e {
+                let i = *sub as usize;
+                if self.subs[i].active {
+                    self.subs[i].active = false;
+                    self.classes.unsubscribed += 1;
+                    self.classes.unsubscribed_in_handlers += 1;
+                    let t = self.obs[self.subs[i].obs as usize].node;
+                    self.sub_changed_since_stab.insert(t);
+                }
             }
         }
         self.model.end_round(&events);
@@ -1537,7 +1652,8 @@ impl<'p> Harness<'p> {
             15 => {
                 label = "on_update";
                 let ni = ln[ch.choose(ln.len())];
-                self.act_on_update(ni);
+                let again = ch.flag(1, 4);
+                self.act_on_update(ni, again);
             }
             _ => {
                 label = "state.unsubscribe";
@@ -1580,6 +1696,15 @@ impl<'p> Harness<'p> {
             let ln: Vec<usize> = self.live_nodes().into_iter().filter(|i| !self.model.node(self.nodes[*i].tag).inner_tainted).collect();
             if !ln.is_empty() {
                 acts.push(HAct::ObserveNew(self.nodes[ln[ch.choose(ln.len())]].tag));
+            }
+        }
+        if crate::choice::dv() >= 2 {
+            // re-entrant use of the observer's own handler table
+            match ch.weighted(&[10, 2, 1, 2]) {
+                1 => acts.push(HAct::UnsubscribeSelf(false)),
+                2 => acts.push(HAct::UnsubscribeSelf(true)),
+                3 if !self.subs.iter().any(|s| s.acts.iter().any(|a| matches!(a, HAct::SubscribeMore))) => acts.push(HAct::SubscribeMore),
+                _ => {}
             }
         }
         if ch.flag(1, 8) && (crate::choice::dv() >= 2 || self.obs[oi].n_subs == 0) {
